@@ -82,6 +82,8 @@ def refusal_sweep(ctx, rng):
     class IP(IdentityProvider):
         def __init__(self):
             self.users = {"alice": User(name="alice", auth_string=NativePasswordAuthPlugin.create_auth_string("pw"), auth_plugin="mysql_native_password"),
+                          "carol": User(name="carol", auth_string=NativePasswordAuthPlugin.create_auth_string("pw")),          # no plugin named: the default one
+                          "dave": User(name="dave", auth_string=NativePasswordAuthPlugin.create_auth_string("pw"), auth_plugin="no_such_plugin"),
                           "nologin": User(name="nologin", auth_plugin=NoLoginAuthPlugin.name)}
 
         def get_plugins(self):
@@ -100,8 +102,18 @@ def refusal_sweep(ctx, rng):
     names = ["bob", "", "nologin", "alice"] + ["x" * k + "用户" for k in (list(range(0, 72, 3)) if ctx.quick else range(72))] + ["é" * 40, "x" * 200]
     settings = [None, "latin1", "ascii"]
     n = 0
+    # the history before the refused exchange varies too: who logged in (an account bound to a plugin by name, one that names
+    # none, one that names a plugin the provider does not have), and whether a successful COM_CHANGE_USER came first
+    plan = []
     for setting in settings:
-        for name in names:
+        for k, name in enumerate(names):
+            if name in ("bob", "", "nologin", "alice"):
+                plan += [(setting, name, login, proof, pre) for login in (b"alice", b"carol", b"dave") for proof in ("empty", "wrong")
+                         for pre in (None, b"carol", b"alice")]
+            else:
+                plan.append((setting, name, (b"alice", b"carol", b"dave")[k % 3], ("wrong", "wrong", "empty")[(k // 3) % 3], (None, None, b"dave")[(k // 9) % 3]))
+    for setting, name, login, proof, pre in plan:
+        if True:
             env = impl.Env(own_sleep=False)
             try:
                 log = []
@@ -110,24 +122,29 @@ def refusal_sweep(ctx, rng):
                 c = impl.Conn(env, srv)
                 env.settle()
                 nonce = cl.parse_handshake_v10(cl.split_raw(c.take())[0][1])["nonce"]
-                c.feed(cl.frame(cl.handshake_response(user=b"alice", auth=cl.native_scramble(b"pw", nonce), charset=45), 1))
+                c.feed(cl.frame(cl.handshake_response(user=login, auth=cl.native_scramble(b"pw", nonce), charset=45), 1))
                 if cl.split_raw(c.take())[-1][1][:1] != b"\x00":
                     return dict(problem="the reference login itself was refused"), n
                 if setting:
                     c.feed(cl.frame(bytes([cl.COM_QUERY]) + f"SET character_set_results = '{setting}'".encode(), 0)); c.take()
-                resp = cl.native_scramble(b"wrong", nonce) if (n % 3) else b""       # every third attempt: no proof at all
+                if pre is not None:
+                    ok = cl.native_scramble(b"pw", nonce)
+                    c.feed(cl.frame(bytes([cl.COM_CHANGE_USER]) + pre + b"\0" + bytes([len(ok)]) + ok + b"\0" + struct.pack("<H", 45) + b"mysql_native_password\0", 0))
+                    if cl.split_raw(c.take())[-1][1][:1] != b"\x00":
+                        return dict(problem="a COM_CHANGE_USER with the right proof was refused", logged_in_as=login.decode(), user=pre.decode()), n
+                resp = cl.native_scramble(b"wrong", nonce) if proof == "wrong" else b""
                 cu = bytes([cl.COM_CHANGE_USER]) + name.encode("utf8") + b"\0" + bytes([len(resp)]) + resp + b"\0" + struct.pack("<H", 45) + b"mysql_native_password\0"
                 c.feed(cl.frame(cu, 0))
                 rep = cl.split_raw(c.take())
                 n += 1
                 if rep and rep[-1][1][:1] == b"\x00":
-                    return dict(problem="a COM_CHANGE_USER with a wrong proof was accepted", user=name, results_charset=setting), n
+                    return dict(problem="a COM_CHANGE_USER without a valid proof was accepted", logged_in_as=login.decode(), then_changed_to=(pre or b"").decode(), user=name, proof=proof, results_charset=setting), n
                 del log[:]
                 if c.blocked_on() != "done":
                     c.feed(cl.frame(bytes([cl.COM_QUERY]) + b"SELECT answer FROM t", 0))
                 rep2 = cl.split_raw(c.take())
                 if log or any(p[:1] != b"\xff" for _, p in rep2):
-                    return dict(problem="after a refused COM_CHANGE_USER the next query was served", user=name, results_charset=setting,
+                    return dict(problem="after a refused COM_CHANGE_USER the next query was served", logged_in_as=login.decode(), then_changed_to=(pre or b"").decode(), user=name, proof=proof, results_charset=setting,
                                 refusal=[p[:40].hex() for _, p in rep], application_saw=repr(log), reply=[p[:12].hex() for _, p in rep2]), n
             finally:
                 env.close()
